@@ -259,6 +259,16 @@ func init() {
 	}
 
 	// FromTime / Scan of a time given in a fixed zone: t = [y,m,d,h,mi,s,ns], off seconds
+	// Today(): the calendar date of the process's local time (specification growth)
+	ops["date.today"] = func(e Ev) Ev {
+		t0 := time.Now()
+		r := date.Today()
+		t1 := time.Now()
+		y0, m0, d0 := t0.Date()
+		y1, m1, d1 := t1.Date()
+		e["before"], e["r"], e["after"] = []int{y0, int(m0), d0}, ymd(r), []int{y1, int(m1), d1}
+		return e
+	}
 	ops["date.fromtime"] = func(e Ev) Ev {
 		a := ints(e["t"])
 		loc := time.FixedZone("z", num(e["off"]))
